@@ -128,6 +128,9 @@ func runPolScenario(t *testing.T, sc polScen, K int) (evs []Ev, crash string) {
 				case "rejnil":
 					return nil, &tls.ECHRejectionError{}
 				case "rejR1":
+					if i%2 == 0 { // wrapped, as a QUIC transport reports it
+						return nil, fmt.Errorf("transport: handshake failed: %w", &tls.ECHRejectionError{RetryConfigList: bytes.Clone(polLists["R1"])})
+					}
 					return nil, &tls.ECHRejectionError{RetryConfigList: bytes.Clone(polLists["R1"])}
 				case "rejR2":
 					return nil, &tls.ECHRejectionError{RetryConfigList: bytes.Clone(polLists["R2"])}
